@@ -338,6 +338,10 @@ class DB:
         self.backup_fs(flush_data.state.height, flush_data.state.tx_count)
         self.history.backup(touched, flush_data.state.tx_count)
         self.flush_utxo_db(flush_data)
+        # Truncate header_mc (header count is 1 more than the height) only now that
+        # self.state.height is lowered: until then a header proof request may still read the
+        # orphaned headers and would put their hashes back into the truncated cache
+        self.header_mc.truncate(flush_data.state.height + 1)
 
         self.log_flush_stats('backup flush', flush_data, time.time() - start_time)
 
@@ -347,8 +351,6 @@ class DB:
         '''Back up during a reorg.  This just updates our pointers.'''
         self.fs_height = height
         self.fs_tx_count = tx_count
-        # Truncate header_mc: header count is 1 more than the height.
-        self.header_mc.truncate(height + 1)
 
     async def raw_header(self, height):
         '''Return the binary header at the given height.'''
